@@ -377,3 +377,76 @@ def ob_a(ob):
             ob.verdict(v, lab)
     x, y = z3.Reals("x y")
     expect_refuted(ob, x - y / 2 == x - y, [y != 0], "twin: a wrong exchange factor is noticed", "lra")
+
+
+def replay_chunked_sigma():
+    """float64: real matrix_vector_product_batched with the memory estimate forced to 'chunk over roots' vs the one-shot
+    branch, formaldehyde-like O-C-H with real integrals and random trial vectors"""
+    from seqm.seqm_functions import rcis_batch as RB
+    from seqm.seqm_functions.hcore import hcore
+    from .common import molecule, quiet
+
+    mol, p, const = molecule([[8, 6, 1]], [[[0.0, 0.0, 0.0], [1.2, 0.1, 0.05], [1.8, 0.95, 0.1]]], "AM1", charges=torch.tensor([1.0]))
+    with quiet():
+        M, w, *_ = hcore(mol)
+    g = torch.Generator().manual_seed(6)
+    norb, nocc, nvirt, nroots = 9, 4, 5, 3
+    C = torch.linalg.qr(torch.rand(norb, norb, generator=g, dtype=w.dtype))[0].unsqueeze(0)
+    V = torch.rand(1, nroots, nocc * nvirt, generator=g, dtype=w.dtype) - 0.5
+    ea = torch.rand(1, nocc, nvirt, generator=g, dtype=w.dtype)
+    saved = RB.getMemUse
+    res = []
+    try:
+        for chunk in (False, True):
+            RB.getMemUse = lambda *a, **k: (chunk, 1)
+            res.append(RB.matrix_vector_product_batched(mol, V.clone(), w, ea, C[:, :, :nocc], C[:, :, nocc:], makeB=True))
+    finally:
+        RB.getMemUse = saved
+    d = max((res[0][0] - res[1][0]).abs().max().item(), (res[0][1] - res[1][1]).abs().max().item())
+    print("replay sigma vectors, chunked over roots vs one shot: max difference %.3e" % d)
+    return d > 1e-9
+
+
+@obligation(PID, "f", title="sigma vectors do not depend on how the work is split: matrix_vector_product_batched returns the same A V (and B V) whether all trial vectors are contracted at once or in chunks chosen by the memory estimate — for arbitrary trial vectors, integrals, one-centre parameters and orbital-energy differences")
+def ob_f(ob):
+    from seqm.seqm_functions import rcis_batch as RB
+    from .C06 import _setup_fock
+
+    ob.encodes(RB.matrix_vector_product_batched, RB.makeA_pi_batched)
+    ob.bound("one molecule O-C-H (9 orbitals, 2 occupied x 2 virtual in the model), 2 trial vectors, chunk size 1; trial vectors, two-centre integrals, one-centre parameters and orbital-energy differences symbolic; orbital coefficients small integers (the identity does not need orthonormal orbitals)")
+    ob.assume("the memory estimate getMemUse is replaced by the two answers it can give")
+    species = [[8, 6, 1]]
+    mol, const, Z, natoms, npairs, n, phys, w, g = _setup_fock(species)
+    norb, nocc, nvirt, nroots = len(phys[0]), 2, 2, 2
+    par = dict(mol.parameters)
+    par.update({"g_ss": SymTensor(g["gss"].copy()), "g_sp": SymTensor(g["gsp"].copy()), "g_pp": SymTensor(g["gpp"].copy()), "g_p2": SymTensor(g["gp2"].copy()), "h_sp": SymTensor(g["hsp"].copy())})
+    ns = types.SimpleNamespace(molsize=3, nmol=1, mask=mol.mask, maskd=mol.maskd, mask_l=mol.mask_l, idxi=mol.idxi, idxj=mol.idxj, nHeavy=mol.nHeavy, nHydro=mol.nHydro, norb=mol.norb, parameters=par)
+    gen = torch.Generator().manual_seed(9)
+    Cocc = torch.randint(-2, 3, (1, norb, nocc), generator=gen).double()
+    Cvirt = torch.randint(-2, 3, (1, norb, nvirt), generator=gen).double()
+    V = S.reals("v", (1, nroots, nocc * nvirt))
+    ea = S.reals("de", (1, nocc, nvirt))
+    saved = RB.getMemUse
+    out = []
+    try:
+        for chunk in (False, True):
+            RB.getMemUse = lambda *a, **k: (chunk, 1)
+            with symbolic_factories():
+                A, B = RB.matrix_vector_product_batched(ns, SymTensor(V.copy()), SymTensor(w.copy()), SymTensor(ea.copy()), Cocc, Cvirt, makeB=True)
+            out.append((A.a.copy(), B.a.copy()))
+    finally:
+        RB.getMemUse = saved
+    for which, idx_ in (("A", 0), ("B", 1)):
+        X0, X1 = out[0][idx_].reshape(-1), out[1][idx_].reshape(-1)
+        ob.require(X0.shape == X1.shape, "chunked and one-shot results have different shapes")
+        for k in range(X0.size):
+            lab = "f:%s V element %d" % (which, k)
+            v, m = smt.prove(X0[k] == X1[k], [], lab, "auto", 60)
+            if v == "sat":
+                if replay_chunked_sigma():
+                    ob.violation("matrix_vector_product_batched: the %s-matrix sigma vector computed in chunks over the trial vectors differs from the one-shot result (CIS/RPA answers depend on free memory)" % which, {"module": "harness.C16", "func": "replay_chunked_sigma", "args": {}})
+                    return
+                raise HarnessError("chunked sigma-build counterexample did not reproduce (%s)" % lab)
+            ob.verdict(v, lab)
+    x, y = z3.Reals("x y")
+    expect_refuted(ob, x == y, [], "twin: a transposed contraction is distinguishable", "lra")
